@@ -6,6 +6,23 @@ pub fn main() {
     let seed: u64 = a.get(3).and_then(|s| s.parse().ok()).unwrap_or(0);
     let only = match (a.get(4).and_then(|s| s.parse().ok()), a.get(5).and_then(|s| s.parse().ok())) { (Some(x), Some(y)) => Some((x, y)), _ => None };
     std::panic::set_hook(Box::new(|_| {}));
+    if group == "kani_replay" {
+        // verif_native kani_replay <harness> <hex;hex;...>: run the Kani harness natively on the concrete values Kani found
+        let harness = a.get(2).cloned().unwrap_or_default();
+        let vals: Vec<Vec<u8>> = a.get(3).map(|s| s.split(';').filter(|x| !x.is_empty()).map(|h| (0..h.len() / 2).map(|i| u8::from_str_radix(&h[2 * i..2 * i + 2], 16).unwrap()).collect()).collect()).unwrap_or_default();
+        crate::query::verif_k::kani::set_inputs(vals);
+        let r = std::panic::catch_unwind(|| super::comparison::verif_kani_cmp::replay(&harness) || super::selector::verif_kani_idx::replay(&harness));
+        let (reproduced, note) = match &r {
+            Ok(true) => (false, "harness ran to completion: every assertion held on these values".to_string()),
+            Ok(false) => (false, "unknown harness".to_string()),
+            Err(e) => match e.downcast_ref::<&str>() { Some(s) if s.starts_with("replay") => (false, s.to_string()),
+                                                       Some(s) => (true, s.to_string()),
+                                                       None => { let m = e.downcast_ref::<String>().cloned().unwrap_or_else(|| "panic".to_string());
+                                                                 (!m.starts_with("replay") && !m.contains("out of range for slice"), m) } },
+        };
+        println!("{}", serde_json::json!({"harness": harness, "reproduced": reproduced, "note": note}));
+        return;
+    }
     let groups: Vec<&str> = if group == "all" { vec!["arith", "pointer_text", "name_lookup", "descendant", "selectors", "regex", "cmp_struct", "requery", "e2e"] } else { group.split(',').collect() };
     let mut out = vec![];
     for g in groups {
